@@ -222,11 +222,13 @@ Print Assumptions C13_roundtrip_eq_hash.
 
 Definition nm (s : string) : gname := (str_of_string "m", str_of_string s).
 
+(* class 4 is the built-in type complex (no attribute can be set on it) *)
 (* module m:  I0; I1(I0); I2; I3;   C0; C1(C0); C2(C1); C3(C1, C0);   o0 = C2() with a0 = 7, o1 = C3() *)
 Definition w0 : world :=
   mkWorld [(nm "I0", []); (nm "I1", [0]); (nm "I2", []); (nm "I3", [])]
-          [(nm "C0", []); (nm "C1", [0]); (nm "C2", [1]); (nm "C3", [1; 0])]
-          [(2, [7%Z]); (3, [])].
+          [(nm "C0", []); (nm "C1", [0]); (nm "C2", [1]); (nm "C3", [1; 0]);
+           ((str_of_string "builtins", str_of_string "complex"), [])]
+          [(2, [7%Z]); (3, [])] [4].
 
 (* @implementer(I1) C0; @implementer_only(I2) C1; classImplementsFirst(C3, I3); implementedBy(C2);
    @provider(I2) C0 *)
@@ -324,4 +326,25 @@ Example C13_stale_declaration_is_rebuilt_current :
   option_map (fun pr => let '(s, y) := rebuild 10 w0 st (reduce_prov w0 pr) in
                         (option_map (obj_interfaces 10 w0 s) y, cache_current 10 w0 s))
              (nth_error (st_provs st) 0) = Some (Some [2], true).
+Proof. vm_compute. repeat split. Qed.
+
+(* a built-in type declared with an *only* form, and a class-provides declaration built up with
+   alsoProvides(cls, ..) / noLongerProvides(cls, ..): the reductions still hold names only *)
+Definition ops2 : list op :=
+  cops0 ++ [OpClassImplementsOnly 4 [0]; OpClassAlsoProvides 0 [3]; OpClassNoLongerProvides 0 2].
+Example C13_witness_builtin_and_class_also_provides :
+  let st := run 11 w0 ops2 in
+  option_map im_inherit (assoc_nat 4 (st_impl st)) = Some None /\
+  assoc_nat 4 (st_cprov_of st) = None /\
+  reduce_impl w0 (get_impl w0 st 4)
+    = Call FImplementedBy [ByName (str_of_string "builtins", str_of_string "complex")] /\
+  snd (rebuild 11 w0 st (reduce_impl w0 (get_impl w0 st 4))) = Some (OImpl 4) /\
+  snd (rebuild 11 w0 st (reduce_impl_prefix w0 (get_impl w0 st 4))) = Some OEmpty /\
+  obj_interfaces 11 w0 st (OImpl 4) = [0] /\
+  assoc_nat 0 (st_cprov_of st) = Some 6 /\
+  option_map (reduce_cprov w0) (nth_error (st_cprovs st) 5)
+    = Some (Call FClassProvides [ByName (nm "C0"); ByName g_type; ByName (nm "I2"); ByName (nm "I3")]) /\
+  option_map (reduce_cprov w0) (nth_error (st_cprovs st) 6)
+    = Some (Call FClassProvides [ByName (nm "C0"); ByName g_type; ByName (nm "I3")]) /\
+  obj_interfaces 11 w0 st (OCProv 6) = [3].
 Proof. vm_compute. repeat split. Qed.
